@@ -1,0 +1,127 @@
+//go:build verif
+
+package db
+
+// Contracts for govc (see /verif/DESIGN.md, C19). Comment-only; compiled only with -tags verif.
+// The store's isolation rests on the key encoding: an entry of the bucket with path P lives under P ++ "_" ++ key,
+// the bucket itself under "b_" ++ P, and every scan uses the prefix P ++ "_" (lemmas: contracts/theory/c19_keys.smt2).
+
+//@ spec func pathOK(b *LDBBucket) bool = b.pathLen == len(b.path) && b.tx != nil
+
+//@ func (*LDBBucket).innerKey
+//@   requires pathOK(b)
+//@   modifies nothing
+//@   ensures empty-key-refused: (err == nil) == (asPrefix || len(key) > 0)
+//@   ensures path-separator-key: err == nil ==> fresh(result0) && len(result0) == len(b.path) + 1 + len(key) && (forall j int :: 0 <= j && j < len(b.path) ==> result0[j] == b.path[j]) && result0[len(b.path)] == 95 && (forall j int :: 0 <= j && j < len(key) ==> result0[len(b.path) + 1 + j] == key[j])
+
+//@ func isValidBucketName
+//@   modifies nothing
+//@   ensures no-separator-in-a-valid-name: result == (len(name) > 0 && len(name) <= 256 && !containsS(name, "_"))
+//@   assert-at call Index looks-for-the-separator: arg0 == name && arg1 == "_"
+
+//@ func joinBucketPath
+//@   modifies nothing
+//@   ensures joined-with-the-separator: (len(arr) == 1 ==> result == arr[0]) && (len(arr) == 2 ==> result == concat(concat(arr[0], "_"), arr[1])) && (len(arr) == 3 ==> result == concat(concat(concat(concat(arr[0], "_"), arr[1]), "_"), arr[2]))
+//@   assert-at call Join separator-is-underscore: arg1 == "_" && arg0 == arr
+
+//@ func (*LDBBucket).Put
+//@   requires pathOK(b)
+//@   assert-at call Put stored-under-the-inner-key: arg0 == b.tx.tr && arg1 == lastresult("innerKey") && arg2 == value
+//@   ensures empty-value-refused: len(value) == 0 ==> err != nil
+
+//@ func (*LDBBucket).Get
+//@   requires pathOK(b)
+//@   assert-at call Get read-from-the-inner-key: arg0 == b.tx.tr && arg1 == lastresult("innerKey")
+
+//@ func (*LDBBucket).Delete
+//@   requires pathOK(b)
+//@   assert-at call Delete deleted-at-the-inner-key: arg0 == b.tx.tr && arg1 == lastresult("innerKey")
+
+//@ func (*LDBBucket).Clear
+//@   requires pathOK(b)
+//@   assert-at call BytesPrefix scans-exactly-path-plus-separator: len(arg0) == len(b.path) + 1 && (forall j int :: 0 <= j && j < len(b.path) ==> arg0[j] == b.path[j]) && arg0[len(b.path)] == 95
+//@   assert-at call NewIterator iterates-this-transaction-over-that-prefix: arg0 == b.tx.tr && arg1 == lastresult("BytesPrefix")
+//@   assert-at call Delete deletes-only-what-the-scan-yields: arg1 == lastresult("Key")
+//@   assert-at call Write one-batch-in-this-transaction: arg0 == b.tx.tr
+
+//@ func (*LDBBucket).GetByPrefix
+//@   requires pathOK(b)
+//@   assert-at call BytesPrefix scans-the-inner-prefix: arg0 == lastresult("innerKey")
+//@   assert-at call NewIterator iterates-this-transaction-over-that-prefix: arg0 == b.tx.tr && arg1 == lastresult("BytesPrefix")
+
+//@ func (*LDBTransaction).Commit
+//@   assert-at call Commit commits-the-leveldb-transaction: arg0 == tx.tr
+//@ func (*LDBTransaction).Rollback
+//@   assert-at call Discard discards-the-leveldb-transaction: arg0 == tx.tr
+
+//@ spec func validName(name string) bool = len(name) > 0 && len(name) <= 256 && !containsS(name, "_")
+
+//@ func (*LDBBucket).subBucket
+//@   ensures only-valid-names: err == nil ==> validName(name)
+//@   ensures child-of-this-bucket: err == nil ==> result0 != nil && result0.tx == b.tx && result0.name == name && result0.depth == b.depth + 1 && result0.pathLen == len(result0.path) && result0.path == lastresult("joinBucketPath")
+//@   assert-at call Split parent-path-split-at-the-separator: arg0 == b.path && arg1 == "_"
+//@   assert-at call Itoa depth-component-is-the-child-depth: arg0 == b.depth + 1
+//@   assert-at call joinBucketPath child-path-is-new-depth-then-parent-names-then-name: len(arg0) == len(lastresult("Split")) + 1 && arg0[0] == lastresult("Itoa") && arg0[len(arg0) - 1] == name && (forall j int :: 1 <= j && j < len(lastresult("Split")) ==> arg0[j] == lastresult("Split")[j])
+
+//@ func (*LDBBucket).NewBucket
+//@   requires b.tx != nil
+//@   assert-at call Get existence-checked-under-the-meta-key: arg0 == b.tx.tr && (forall j int :: 0 <= j && j < 2 ==> arg1[j] == ite(j == 0, 98, 95)) && len(arg1) == 2 + len(lastresult("subBucket").path) && (forall j int :: 0 <= j && j < len(lastresult("subBucket").path) ==> arg1[2 + j] == lastresult("subBucket").path[j])
+//@   assert-at call Put meta-entry-written-under-the-checked-key: arg0 == b.tx.tr && len(arg1) == 2 + len(lastresult("subBucket").path) && arg1[0] == 98 && arg1[1] == 95 && (forall j int :: 0 <= j && j < len(lastresult("subBucket").path) ==> arg1[2 + j] == lastresult("subBucket").path[j])
+//@   ensures new-bucket-is-the-sub-bucket: err == nil ==> result0 != nil
+
+//@ func (*LDBTransaction).CreateTopLevelBucket
+//@   ensures only-valid-names: err == nil ==> validName(name)
+//@   ensures top-level-path: err == nil ==> result0 != nil && unbox("*LDBBucket", result0).path == concat(concat("1", "_"), name) && unbox("*LDBBucket", result0).depth == 1 && unbox("*LDBBucket", result0).tx == tx && unbox("*LDBBucket", result0).pathLen == len(unbox("*LDBBucket", result0).path)
+
+//@ func deleteBucket
+//@   requires pathOK(b)
+//@   ensures top-level-buckets-are-never-deleted: old(b.depth) == 1 ==> err != nil
+//@   assert-at call BytesPrefix scans-exactly-path-plus-separator: len(arg0) == len(b.path) + 1 && (forall j int :: 0 <= j && j < len(b.path) ==> arg0[j] == b.path[j]) && arg0[len(b.path)] == 95
+//@   assert-at call NewIterator iterates-this-transaction-over-that-prefix: arg0 == b.tx.tr && arg1 == lastresult("BytesPrefix")
+//@   assert-at call Delete#1 deletes-only-what-the-scan-yields: arg1 == lastresult("Key")
+//@   assert-at call Delete#2 then-the-meta-entry-of-this-bucket: arg0 == b.tx.tr && len(arg1) == 2 + len(b.path) && arg1[0] == 98 && arg1[1] == 95 && (forall j int :: 0 <= j && j < len(b.path) ==> arg1[2 + j] == b.path[j])
+
+//@ func (*LDBBucket).Bucket
+//@   requires b.tx != nil
+//@   assert-at call Get looked-up-under-the-meta-key: arg0 == b.tx.tr && len(arg1) == 2 + len(lastresult("subBucket").path) && arg1[0] == 98 && arg1[1] == 95 && (forall j int :: 0 <= j && j < len(lastresult("subBucket").path) ==> arg1[2 + j] == lastresult("subBucket").path[j])
+
+//@ func (*LDBBucket).DeleteBucket
+//@   requires b.tx != nil
+//@   assert-at call deleteBucket deletes-the-named-sub-bucket: arg0 == unbox("*LDBBucket", lastresult("Bucket"))
+//@   assert-at call Write one-batch-in-this-transaction: arg0 == b.tx.tr
+
+// ---- the read-only twin: same encoding, no writes
+//@ spec func rpathOK(b *LDBReadBucket) bool = b.pathLen == len(b.path)
+
+//@ func (*LDBReadBucket).innerKey
+//@   requires rpathOK(b)
+//@   modifies nothing
+//@   ensures empty-key-refused: (err == nil) == (asPrefix || len(key) > 0)
+//@   ensures path-separator-key: err == nil ==> fresh(result0) && len(result0) == len(b.path) + 1 + len(key) && (forall j int :: 0 <= j && j < len(b.path) ==> result0[j] == b.path[j]) && result0[len(b.path)] == 95 && (forall j int :: 0 <= j && j < len(key) ==> result0[len(b.path) + 1 + j] == key[j])
+
+//@ func (*LDBReadBucket).Get
+//@   requires rpathOK(b)
+//@   assert-at call Get read-from-the-inner-key: arg0 == b.ldb && arg1 == lastresult("innerKey")
+
+//@ func (*LDBReadBucket).GetByPrefix
+//@   requires rpathOK(b)
+//@   assert-at call BytesPrefix scans-the-inner-prefix: arg0 == lastresult("innerKey")
+//@   assert-at call NewIterator iterates-over-that-prefix: arg0 == b.ldb && arg1 == lastresult("BytesPrefix")
+
+//@ func (*LDBReadBucket).subBucket
+//@   ensures only-valid-names: err == nil ==> validName(name)
+//@   ensures child-of-this-bucket: err == nil ==> result0 != nil && result0.ldb == b.ldb && result0.name == name && result0.depth == b.depth + 1 && result0.pathLen == len(result0.path) && result0.path == lastresult("joinBucketPath")
+//@   assert-at call Split parent-path-split-at-the-separator: arg0 == b.path && arg1 == "_"
+//@   assert-at call Itoa depth-component-is-the-child-depth: arg0 == b.depth + 1
+//@   assert-at call joinBucketPath child-path-is-new-depth-then-parent-names-then-name: len(arg0) == len(lastresult("Split")) + 1 && arg0[0] == lastresult("Itoa") && arg0[len(arg0) - 1] == name && (forall j int :: 1 <= j && j < len(lastresult("Split")) ==> arg0[j] == lastresult("Split")[j])
+
+//@ func (*LDBReadBucket).Put
+//@   ensures read-only: err != nil
+//@ func (*LDBReadBucket).Delete
+//@   ensures read-only: err != nil
+//@ func (*LDBReadBucket).Clear
+//@   ensures read-only: err != nil
+//@ func (*LDBReadBucket).NewBucket
+//@   ensures read-only: err != nil
+//@ func (*LDBReadBucket).DeleteBucket
+//@   ensures read-only: err != nil
